@@ -230,6 +230,20 @@ class Project:
                     ci.class_attrs[b.target.id] = b.value
         elif isinstance(st, ast.Assign):
             for t in st.targets:
+                if isinstance(t, (ast.Tuple, ast.List)):
+                    # a, b = x, y binds position by position; a, b = f() binds the k-th item of the value
+                    for k, tt in enumerate(t.elts):
+                        if not isinstance(tt, ast.Name):
+                            continue
+                        if isinstance(st.value, (ast.Tuple, ast.List)) and len(st.value.elts) == len(t.elts) \
+                                and not any(isinstance(e_, ast.Starred) for e_ in st.value.elts):
+                            m.globals[tt.id] = st.value.elts[k]
+                        else:
+                            sub = ast.Subscript(value=st.value, slice=ast.Constant(value=k), ctx=ast.Load())
+                            ast.copy_location(sub, st.value)
+                            ast.fix_missing_locations(sub)
+                            m.globals[tt.id] = sub
+                    continue
                 for n in ast.walk(t):
                     if isinstance(n, ast.Name):
                         m.globals[n.id] = st.value
